@@ -8,8 +8,9 @@ ids = [json.loads(l)["id"] for l in open(os.path.join(V, "properties.jsonl")) if
 fixes = []
 kf = os.path.join(V, "known_findings.json")
 checks = []
+UNFINISHED = set(getattr(props, "UNFINISHED", ()))
 for pid in ids:
-    if pid not in props.PROPS:
+    if pid not in props.PROPS or pid in UNFINISHED:
         continue
     s = props.PROPS[pid]
     checks.append({
@@ -23,7 +24,7 @@ for pid in ids:
         "level_note": s["level_note"],
         "technique": s["technique"],
     })
-na = [{"property_id": pid, "reason": props.NOT_YET.get(pid, "check not built yet in this session; no claim is made")} for pid in ids if pid not in props.PROPS]
+na = [{"property_id": pid, "reason": props.NOT_YET.get(pid, "check not built yet in this session; no claim is made")} for pid in ids if pid not in props.PROPS or pid in UNFINISHED]
 m = {
     "version": 1,
     "setup_cmd": "python3 verif.py setup",
